@@ -35,6 +35,8 @@ from aiokafka.protocol.transaction import (
 from aiokafka.structs import TopicPartition
 from aiokafka.util import create_task
 
+from .transaction_manager import TransactionResult, TransactionState
+
 log = logging.getLogger(__name__)
 
 BACKOFF_OVERRIDE = 0.02  # 20ms wait between transactions is better than 100ms.
@@ -299,6 +301,13 @@ class Sender:
     def _maybe_do_transactional_request(self):
         txn_manager = self._txn_manager
 
+        if txn_manager.state == TransactionState.ABORTABLE_ERROR:
+            # Nothing can be added to a failed transaction, wait for the abort
+            return None
+        if txn_manager.needs_transaction_commit() == TransactionResult.ABORT:
+            # No reason to add anything to a transaction that is going away
+            return create_task(self._do_txn_commit(TransactionResult.ABORT))
+
         # If we have any new partitions, still not added to the transaction
         # we need to do that before committing
         tps = txn_manager.partitions_to_add()
@@ -364,12 +373,20 @@ class Sender:
             Produce requests will be stopped, as accumulator will not be
         yielding any new batches.
         """
+        txn_manager = self._txn_manager
+
+        if commit_result == TransactionResult.ABORT:
+            # Batches of partitions, that were never added to the transaction
+            # must not be written, the coordinator would not abort them.
+            self._message_accumulator.fail_batches(
+                txn_manager.abort_pending_partitions(),
+                KafkaError("Failing batch since transaction was aborted"),
+            )
+
         # First we need to ensure that all pending messages were flushed
         # before committing. Note, that this will only flush batches available
         # till this point, no new ones.
         await self._message_accumulator.flush_for_commit()
-
-        txn_manager = self._txn_manager
 
         # If we never sent any data to begin with, no need to commit
         if txn_manager.is_empty_transaction():
